@@ -60,7 +60,12 @@ def parse(uri):
 
 def judge(run, drv, case, raw, path, version):
     try:
-        uri = impl.magnet(path, version)
+        if case.get("case_seed", 0) % 3 == 0:
+            # the command line, sometimes verbose / quiet
+            flag = [[], ["-v"], ["-q"]][(case.get("case_seed", 0) // 3) % 3]
+            uri = impl.cli(flag + ["magnet", path, "--meta-version", str(version)])
+        else:
+            uri = impl.magnet(path, version)
     except Exception as exc:
         run.fail("impl-vs-spec", dict(case, request=version), {"raised": repr(exc)})
         return
